@@ -101,10 +101,39 @@ theorem good_spItems (vs : List Nat) : GoodItems isWsT (vs.map spItem) := by
   simp only [spItem, List.mem_singleton] at hc
   rw [hc]; rfl
 
-theorem ints_renderDec (vs : List Nat) : ints (vs.map renderDec) = some vs := by
+theorem hasNonAscii_renderDec (n : Nat) : hasNonAscii (renderDec n) = false := by
+  unfold hasNonAscii
+  rw [List.any_eq_false]
+  intro c hc
+  have := renderDec_isDigit n c hc
+  simp only [isDigit, Bool.and_eq_true, decide_eq_true_eq] at this
+  simp only [decide_eq_true_eq]
+  omega
+
+/-- `int()` of what `%u`/`%lu`/`%llu` print is the number printed -/
+theorem intTok_renderDec (n : Nat) : intTok (renderDec n) = .ok n := by
+  unfold intTok
+  rw [hasNonAscii_renderDec, pyInt_renderDec]
+  rfl
+
+theorem ints_renderDec (vs : List Nat) : ints (vs.map renderDec) = .ok vs := by
   induction vs with
   | nil => rfl
-  | cons v r ih => simp [ints, parseDec_renderDec, ih]
+  | cons v r ih => simp [ints, intTok_renderDec, ih, Res.bind]
+
+theorem lead_odd (c : Nat) (h : isUniLead c = true) : Odd c := by
+  simp only [isUniLead, Bool.or_eq_true, decide_eq_true_eq] at h
+  refine ⟨by omega, ?_⟩
+  simp only [isDigit, Bool.and_eq_false_iff, decide_eq_false_iff_not]
+  omega
+
+/-- text in which every byte that is neither a blank nor a digit is absent has no Unicode space -/
+theorem hasUniSpace_of_odd_free (s : Bytes) (h : ∀ c, Odd c → c ∉ s) : hasUniSpace s = false := by
+  apply hasUniSpace_noLead
+  intro c hc
+  cases hl : isUniLead c with
+  | false => rfl
+  | true => exact absurd hc (h c (lead_odd c hl))
 
 /-! ### a dict filled in a loop over distinct keys -/
 
@@ -193,9 +222,11 @@ theorem netLine_render_raw (cfg : NetCfg) (hr : cfg.rfind = true) (hu : cfg.unpa
     have hl : (padLeft 6 i.name).length + 1 = (padLeft 6 i.name ++ [58]).length := by simp
     rw [hl, List.drop_left]
   have hlen : (i.cells.map fun wv => wv.2).length = 16 := by simp [Iface.cells]
+  have huni : hasUniSpace (renderCells i.cells) = false :=
+    hasUniSpace_of_odd_free _ (fun c hc => odd_not_mem_renderCells c _ hc)
   unfold netLine
-  simp only [hr, if_true, hcolon, htake, hdrop, split_renderCells]
-  have hi : ints (List.map (fun wv => renderDec wv.2) i.cells) = some (i.cells.map (·.2)) := by
+  simp only [hr, if_true, hcolon, htake, hdrop, huni, Bool.false_eq_true, if_false, split_renderCells]
+  have hi : ints (List.map (fun wv => renderDec wv.2) i.cells) = .ok (i.cells.map (·.2)) := by
     have := ints_renderDec (i.cells.map (·.2))
     simpa [List.map_map, Function.comp_def] using this
   rw [hi]
@@ -298,26 +329,33 @@ theorem perdevTuples_map {α : Type} (fields : List String) (xs : List α) (name
 def tuple8 (i : Iface) : List Nat :=
   [i.txBytes, i.rxBytes, i.txPackets, i.rxPackets, i.rxErrs, i.txErrs, i.rxDrop, i.txDrop]
 
-theorem foldl_add8 (ifs : List Iface) (a0 a1 a2 a3 a4 a5 a6 a7 : Nat) :
-    (ifs.map tuple8).foldl (fun acc x => List.zipWith (· + ·) acc x) [a0, a1, a2, a3, a4, a5, a6, a7]
-      = [a0 + (ifs.map (·.txBytes)).sum, a1 + (ifs.map (·.rxBytes)).sum,
-         a2 + (ifs.map (·.txPackets)).sum, a3 + (ifs.map (·.rxPackets)).sum,
-         a4 + (ifs.map (·.rxErrs)).sum, a5 + (ifs.map (·.txErrs)).sum,
-         a6 + (ifs.map (·.rxDrop)).sum, a7 + (ifs.map (·.txDrop)).sum] := by
-  induction ifs generalizing a0 a1 a2 a3 a4 a5 a6 a7 with
-  | nil => simp
-  | cons i r ih => simp [tuple8, ih, Nat.add_assoc]
+/-- `zip(*rows)` of rows that all have the same eight cells: the eight columns -/
+theorem zipStar_tuple8 (i : Iface) (r : List Iface) :
+    zipStar ((i :: r).map tuple8)
+      = [(i :: r).map (·.txBytes), (i :: r).map (·.rxBytes), (i :: r).map (·.txPackets),
+         (i :: r).map (·.rxPackets), (i :: r).map (·.rxErrs), (i :: r).map (·.txErrs),
+         (i :: r).map (·.rxDrop), (i :: r).map (·.txDrop)] := by
+  induction r generalizing i with
+  | nil => simp [zipStar, tuple8]
+  | cons j r ih =>
+    have := ih j
+    simp only [List.map_cons] at this ⊢
+    rw [zipStar, this]
+    · simp [tuple8]
+    · simp
 
-theorem sumCols_tuple8 (i : Iface) (r : List Iface) :
-    sumCols ((i :: r).map tuple8)
-      = [((i :: r).map (·.txBytes)).sum, ((i :: r).map (·.rxBytes)).sum,
+/-- the system-wide branch of `psutil.net_io_counters` as extracted: one sum per column -/
+theorem aggregate_tuple8 (i : Iface) (r : List Iface) :
+    aggregate netAgg ((i :: r).map tuple8)
+      = some [((i :: r).map (·.txBytes)).sum, ((i :: r).map (·.rxBytes)).sum,
          ((i :: r).map (·.txPackets)).sum, ((i :: r).map (·.rxPackets)).sum,
          ((i :: r).map (·.rxErrs)).sum, ((i :: r).map (·.txErrs)).sum,
          ((i :: r).map (·.rxDrop)).sum, ((i :: r).map (·.txDrop)).sum] := by
-  simp only [List.map_cons, sumCols]
-  rw [show tuple8 i = [i.txBytes, i.rxBytes, i.txPackets, i.rxPackets, i.rxErrs, i.txErrs,
-    i.rxDrop, i.txDrop] from rfl, foldl_add8]
-  simp
+  have hs : netAgg.source = "zip(*rawdict.values())" := by decide
+  have hr : netAgg.reducer = "sum" := by decide
+  unfold aggregate
+  rw [if_pos hs, zipStar_tuple8, hr]
+  simp [reduceCols, reduceCol]
 
 theorem sumFields_documented8 (ifs : List Iface) :
     sumFields netFieldNames (ifs.map documented8)
@@ -329,10 +367,30 @@ theorem sumFields_documented8 (ifs : List Iface) :
 
 /-! ### one `/proc/diskstats` line -/
 
-/-- a device name is one token for `split()` -/
+/-- a device name is one token for `str.split()`: non-empty, no ASCII whitespace (0x1c–0x1f
+    included) and no UTF-8 encoded Unicode space (U+0085, U+00A0, U+1680, U+2000–U+200A, U+2028,
+    U+2029, U+202F, U+205F, U+3000) -/
 structure WFDisk (n : Bytes) : Prop where
   ne : n ≠ []
   noWs : NoP isWsT n
+  noUni : hasUniSpace n = false
+
+/-- blanks/digits around a name: the line has a Unicode space only if the name has one -/
+theorem hasUniSpace_line (pre n post : Bytes) (hpre : ∀ c, Odd c → c ∉ pre) (hpost : ∀ c, Odd c → c ∉ post)
+    (hn : hasUniSpace n = false) : hasUniSpace (pre ++ (n ++ post)) = false := by
+  rw [hasUniSpace_append_left pre _ (fun c hc => by
+    cases hl : isUniLead c with
+    | false => rfl
+    | true => exact absurd hc (hpre c (lead_odd c hl)))]
+  rw [hasUniSpace_append_right n post ?_ (hasUniSpace_of_odd_free post hpost), hn]
+  intro x hx
+  have hmem : x ∈ post := List.mem_of_mem_head? hx
+  by_cases h128 : x < 128
+  · exact h128
+  · exfalso
+    refine hpost x ⟨by omega, ?_⟩ hmem
+    simp only [isDigit, Bool.and_eq_false_iff, decide_eq_false_iff_not]
+    omega
 
 theorem good_cons (g t : Bytes) (items : List (Bytes × Bytes)) (hg : g ≠ [] ∧ AllP isWsT g)
     (ht : t ≠ [] ∧ NoP isWsT t) (hi : GoodItems isWsT items) : GoodItems isWsT ((g, t) :: items) := by
